@@ -82,7 +82,7 @@ def failing_tests(wt, tag):
     xml = os.path.join(WORK, f'junit_{tag}.xml')
     env = dict(os.environ, PYTHONPATH=os.path.join(wt, 'src'))
     sh([PY, '-m', 'pytest', '-q', '-p', 'no:cacheprovider', '--timeout=900', '--continue-on-collection-errors',
-        '-n', '8', f'--junitxml={xml}', 'tests'], cwd=wt, env=env, timeout=3600)
+        f'--junitxml={xml}', 'tests'], cwd=wt, env=env, timeout=3600)
     bad = set()
     n = 0
     for tc in ET.parse(xml).getroot().iter('testcase'):
@@ -189,7 +189,7 @@ def main(argv):
     sel = [i for i in all_ids if not ids or i in ids or i.split('-')[0] in ids]
     if cmd == 'verify':
         baseline()
-        with cf.ThreadPoolExecutor(max_workers=2) as ex:
+        with cf.ThreadPoolExecutor(max_workers=6) as ex:
             for sid, ok, log in ex.map(verify, sel):
                 print(f'SEED {sid} verified={ok}')
                 for ln in log:
